@@ -479,10 +479,10 @@ func (c *activeChecker) set(u map[string]bool) {
 
 func TestC21(t *testing.T) {
 	run := ev.Start(t, "C21", "exploration",
-		"PRNG-generated memberships (1-12 hosts, 5 naming styles) x MaxReplica 1-5 x 7 health scripts (all, none, one healthy, one unhealthy, "+
+		"PRNG-generated memberships (1-12 hosts on all 65536 shard ids; additional memberships of 13-24 hosts on every 16th/4th shard id; 5 naming styles) x MaxReplica 1-5 x 7 health scripts (all, none, one healthy, one unhealthy, "+
 			"random half, mostly unhealthy, top owners of a shard unhealthy; the quick tier runs 4 memberships x 5 scripts); each configuration is evaluated on ALL 65536 shard ids, each shard on >= 4 real rings "+
 			"that reached the membership through different Refresh histories / discovery orders (plus one ring behind the real passive or active health filter). "+
-			"One case = (membership, MaxReplica, health script); it is non-trivial when the membership has >= 2 hosts and all 65536 shards were compared on every ring. "+
+			"One case = (membership, MaxReplica, health script); it is non-trivial when the membership has >= 2 hosts. "+
 			"Concurrent phase: transitions between (membership, health) states (swap, rolling replacement with unhealthy survivors, grow, shrink, health-only) are applied by Refresh while readers call "+
 			"Locations on 192 shards - deterministically while a Watcher parks the Refresh inside Notify, and free-running; every answer must be the model's replica set of the state before or after, never a mixture. "+
 			"One case per transition; non-trivial when the membership changed.")
@@ -500,11 +500,25 @@ func TestC21(t *testing.T) {
 
 	selfCheckOracle(t, run.Rand("oracle-self-check"))
 
-	nMemb := run.N(4, 24)
-	for mi := 0; mi < nMemb; mi++ {
+	nSmall := run.N(4, 24)
+	nBig := run.N(2, 6) // memberships of 13-24 hosts (sort.Sort leaves its small-slice path above 12 elements)
+	for mi := 0; mi < nSmall+nBig; mi++ {
 		r := run.Rand(fmt.Sprintf("membership-%d", mi))
 		size := 1 + mi%12
-		if run.Quick() {
+		shardStride, shardOffset := 1, 0
+		if mi >= nSmall {
+			// big memberships: one in 13-17, the next in 18-24, ...; every 16th (thorough:
+			// 4th) shard only, the offset moves with the seed
+			bi := mi - nSmall
+			if bi%2 == 0 {
+				size = 13 + int(run.Seed()+int64(bi))%5
+			} else {
+				size = 18 + int(run.Seed()+int64(bi))%7
+			}
+			shardStride = run.N(16, 4)
+			shardOffset = int(run.Seed()+int64(bi)) % shardStride
+		}
+		if run.Quick() && mi < nSmall {
 			// four memberships spread over the size range; the seed shifts them so
 			// that a few seeds cover most sizes
 			size = []int{2, 4, 6, 9}[mi] + int(run.Seed()+int64(mi))%2
@@ -534,7 +548,7 @@ func TestC21(t *testing.T) {
 		}
 		ranks, tieShard, ties := computeRanks(hosts)
 		run.Count("oracle_score_ties", ties)
-		evalMembership(t, run, r, mi, hosts, style, mrs, ranks, tieShard, digests)
+		evalMembership(t, run, r, mi, hosts, style, mrs, ranks, tieShard, digests, shardStride, shardOffset)
 	}
 	if run.ReplayCase() == "" || strings.HasPrefix(run.ReplayCase(), "inflight/") {
 		concurrentPhase(run)
@@ -654,10 +668,10 @@ type bad struct {
 	witness map[string]interface{}
 }
 
-// encode packs a replica set into a word (member index+1, 4 bits each) so that
+// encode packs a replica set into a word (member index+1, 5 bits each) so that
 // rings can be compared after their passes; ok=false when it does not fit.
 func encode(got []string, index map[string]int) (uint64, bool) {
-	if len(got) > 15 {
+	if len(got) > 12 {
 		return 0, false
 	}
 	var w uint64
@@ -666,13 +680,13 @@ func encode(got []string, index map[string]int) (uint64, bool) {
 		if !ok {
 			return 0, false
 		}
-		w = w<<4 | uint64(i+1)
+		w = w<<5 | uint64(i+1) // up to 31 members
 	}
 	return w, true
 }
 
 func evalMembership(t *testing.T, run *ev.Run, r *rand.Rand, mi int, hosts []string, style string, mrs []int,
-	ranks [][]uint8, tieShard []bool, digests []core.Digest) {
+	ranks [][]uint8, tieShard []bool, digests []core.Digest, shardStride, shardOffset int) {
 
 	n := len(hosts)
 	members := map[string]bool{}
@@ -772,7 +786,7 @@ func evalMembership(t *testing.T, run *ev.Run, r *rand.Rand, mi int, hosts []str
 				var calls int64
 				defer func() { pmu.Lock(); p.calls += calls; pmu.Unlock() }()
 				for s := lo; s < hi; s++ {
-					if p.skip >= 0 && s%3 == p.skip {
+					if (p.skip >= 0 && s%3 == p.skip) || s%shardStride != shardOffset {
 						p.enc[s] = encSkipped
 						continue
 					}
